@@ -506,7 +506,12 @@ class Parser:
         if token.token_type is TokenTypes.REGISTER:
             return include_reg
         if self._current_token.is_a(TokenTypes.NAME):
-            return not self._context.has_routine(str(self.current_token))
+            name = str(self.current_token)
+            # A parameter or local hides a routine of its name.
+            if self._context.has_symbol_typed(
+                    name, SymbolType.VAR, SymbolType.MACRO):
+                return True
+            return not self._context.has_routine(name)
         return False
 
     def _definition(self) -> bool:
